@@ -55,7 +55,13 @@ SimPropose ==
                                 [] k = 2 -> << [op |-> nextOp, mode |-> "local", n |-> 1], [op |-> nextOp, mode |-> "quorum", n |-> 1] >>
                                 [] k = 3 -> IF Coin(2) THEN << [op |-> nextOp, mode |-> "quorum", n |-> 0] >> ELSE << >>)
 
+\* the matching fence with exactly one component changed
+Near == {[Current EXCEPT !.epoch = @ + 1], [Current EXCEPT !.lepoch = @ + 1],
+         [Current EXCEPT !.lepoch = IF @ > 0 THEN @ - 1 ELSE @ + 2],
+         [Current EXCEPT !.op = @ + 1], [Current EXCEPT !.gen = 2]}
+
 SimStored ==
+  \/ \E f \in Pick(Near) : m.infl.present /\ Stored(f, m.leo + 1, m.leo + Total, FALSE)
   \* what a real store returns
   \/ m.infl.present /\ Stored(Current, m.leo + 1, m.leo + Total, FALSE)
   \/ m.infl.present /\ Stored(Current, m.leo + 1, m.leo + Total, FALSE)
@@ -67,6 +73,7 @@ SimStored ==
         Coin(2) /\ Stored(f, m.leo + 1, m.leo + 1, err)
 
 SimQuorum ==
+  \/ \E f \in Pick(Near) : m.infl.present /\ Coin(2) /\ Quorum(f, m.leo + 1, m.leo + Total, m.leo + Total, FALSE)
   \/ m.infl.present /\ Quorum(Current, m.leo + 1, m.leo + Total, m.leo + Total, FALSE)
   \/ \E first \in Pick(0..MaxOff), d \in Pick({0, 1}), h \in Pick({0, 0, 1}) :
         m.infl.present /\ Coin(3) /\ Quorum(Current, first, first + Total - 1 - d, first + Total - 1 - d - h, FALSE)
